@@ -133,7 +133,11 @@ func instrIndex(in ssa.Instruction) int {
 // evalBoolAlt evaluates e twice: with opaque predicates applied, and with
 // their bodies expanded (equivalent by the defining axioms).
 func (x *Exec) evalBoolAlt(env *Env, e *Expr) (string, string) {
+	before := x.predApps
 	p := x.evalBool(env, e)
+	if x.predApps == before {
+		return p, "" // no opaque predicate involved
+	}
 	x.expandPreds = true
 	alt := x.evalBool(env, e)
 	x.expandPreds = false
@@ -793,6 +797,7 @@ func (x *Exec) placeholder(t types.Type, hint string) Value {
 // defining axiom. Facts about it survive heap merges by congruence instead of
 // having to be re-derived through the quantifiers in its body.
 func (x *Exec) applyPredicate(sub *Env, sf *SpecFunc, actuals []Value, ptypes []types.Type) Value {
+	x.predApps++
 	def, ok := x.preds[sf.Name]
 	if !ok {
 		ph := &State{Reach: "true", Heap: map[string]string{}, Epoch: -1 - len(x.preds), Frontier: "F0"}
